@@ -344,3 +344,19 @@ def test_c04_operator_form_apply_in_complex_eigenbasis():
     with qr.eigenbasis_of(SelfAdjointOperator(data=_Z.copy())):
         out = L.apply(rho)
     assert numpy.allclose(out.data, ref, atol=1e-10)
+
+
+def test_c04_two_lindblad_forms_from_one_sbi():
+    from quantarhei.qm import LindbladForm, SystemBathInteraction, Operator
+    hh = qr.Hamiltonian(data=numpy.array([[0.0, 0.2, 0.0], [0.2, 1.0, -0.3], [0.0, -0.3, 1.5]]))
+    k1 = numpy.zeros((3, 3)); k1[0, 1] = 1.0
+    k2 = numpy.zeros((3, 3)); k2[2, 1] = 1.0; k2[1, 1] = 0.5
+    sbi = SystemBathInteraction([Operator(data=k1), Operator(data=k2)], rates=[0.3, 0.7])
+    L1 = LindbladForm(hh, sbi, as_operators=True)
+    L2 = LindbladForm(hh, sbi, as_operators=True)
+    r = numpy.array([[0.5, 0.1 + 0.2j, 0], [0.1 - 0.2j, 0.3, 0.05j], [0, -0.05j, 0.2]])
+    rho = qr.ReducedDensityMatrix(data=r.copy())
+    ref = numpy.array(L1.apply(rho).data)
+    with qr.eigenbasis_of(hh):
+        a, b = L1.apply(rho), L2.apply(rho)
+    assert numpy.allclose(a.data, ref, atol=1e-12) and numpy.allclose(b.data, ref, atol=1e-12)
